@@ -225,6 +225,41 @@ func runC17(cfg Config) {
 			run(blob, bad, "wrong-id", false)
 		}
 	}
+	// a file that differs from the indexed blob is never accepted, also when the context is cancelled while the check
+	// runs (from the caller's progress bar, i.e. from inside a worker, at every progress count): the result is the
+	// mismatch or an interruption, never success
+	for it := 0; it < cfg.N(6, 60); it++ {
+		nchunks := []int{5, 25, 45, 120}[it%4]
+		sizes := make([]int, nchunks)
+		for i := range sizes {
+			sizes[i] = 64
+		}
+		blob := randBytes(rng, 64*nchunks)
+		cs := indexOf(blob, sizes)
+		bad := append([]byte{}, blob...)
+		pos := len(bad) - 1 - rng.Intn(64) // in the last chunk
+		if it%3 == 1 {
+			pos = rng.Intn(len(bad))
+		}
+		bad[pos] ^= 8
+		name := filepath.Join(cfg.Work, "cancel-blob")
+		os.WriteFile(name, bad, 0644)
+		idx := desync.Index{Chunks: cs}
+		for _, n := range []int{1, 2, 3} {
+			count := &cancelBar{k: -1}
+			desync.VerifyIndex(context.Background(), name, idx, n, count)
+			for k := 0; k <= count.calls; k++ {
+				ctx, cancel := context.WithCancel(context.Background())
+				err := desync.VerifyIndex(ctx, name, idx, n, &cancelBar{k: k, cancel: cancel})
+				cancel()
+				caseLine := fmt.Sprintf("verify.cancel chunks=%d n=%d altered-byte=%d cancel-at-progress=%d of %d", nchunks, n, pos, k, count.calls)
+				rep.Count(caseLine, true, "verify:cancelled", fmt.Sprintf("verify-cancel-result:%v", err == nil))
+				if err == nil {
+					monitor("a file that differs from the indexed blob is accepted when the check is cancelled while it runs", caseLine, "nil")
+				}
+			}
+		}
+	}
 	c17CLI(cfg, rep, rng)
 	rep.Write(cfg.Out)
 }
